@@ -59,9 +59,10 @@ def exec_events(recorded: List[Dict]) -> List[Dict]:
 def run(ctx: Ctx):
     quick = ctx.tier == "quick"
     rng = random.Random(ctx.seed * 8191 + 9)
-    ctx.rule = ("generated inputs of 6 queries; every run of one (input, mode) must give byte-identical XMAP files "
+    ctx.rule = ("generated inputs of 8 queries; every run of one (input, mode) must give byte-identical XMAP files "
                 "(header lines that echo arguments / host / absolute paths removed): the unmodified CLI with "
-                "-c in {1,2,3,5,8,16} and repetitions, Program.run in process with a sequential map, and Program.run "
+                "-c in {1,2,3,5,8,16} and repetitions, each in a fresh interpreter with a different PYTHONHASHSEED "
+                "(molecules with an inverted part give first- and second-pass records on opposite strands), Program.run in process with a sequential map, and Program.run "
                 "with the real pathos pool steered into completion orders that TLC enumerated from Pool.tla. "
                 "non-trivial = distinct run whose recorded executions were spread over >= 2 worker processes, or "
                 "a CLI run with -c > 1")
@@ -84,20 +85,25 @@ def run(ctx: Ctx):
     cli_cpus = [1, 3, 8] if quick else [1, 2, 3, 5, 8, 16]
     lines, tags = [], []
     for k in range(n_inputs):
-        inp = pipecases.make_input(rng, n_refs=2, n_qry=6, kinds=["samestart", "flankdup", "samestart", "mirror", "flankdup", "samestart"],
+        inp = pipecases.make_input(rng, n_refs=2, n_qry=8, kinds=["samestart", "flankdup", "samestart", "mirror", "flankdup", "samestart",
+                                                   "inversion", "inversion"],
                                    ref_labels=(330, 360), decimals=False, lattice=100)
         wd = os.path.join(ctx.workdir, f"c09-{k}")
         rp, qp = pipecases.write_input(wd, inp, "in")
         qids = [q["id"] for q in inp["qrys"]]
         first_ref = inp["refs"][0]["id"]
-        for mode in (["all", "best"] if not quick else ["all"]):
+        for mode in (["all", "joined", "best", "separate"] if not quick else ["all", "joined"]):
             runs = []
+            nrun = 0
             for c in cli_cpus:
                 for rep in range(2 if c == cli_cpus[1] else 1):
-                    r = pipecases.run_once(wd, rp, qp, f"cli_{mode}_{c}_{rep}", mode, cli=True, cpus=c)
+                    # every CLI run in a fresh interpreter with its own string-hash seed (a user's shell randomises it)
+                    r = pipecases.run_once(wd, rp, qp, f"cli_{mode}_{c}_{rep}", mode, cli=True, cpus=c,
+                                           hashseed=nrun if nrun < 6 else "random")
+                    nrun += 1
                     if r["status"] != "ok":
                         raise tlc.MachineryError(f"CLI run failed: {r['status']} {r['log'][-300:]}")
-                    runs.append({"label": f"cli -c {c} #{rep}", "digest": [f"{n}:{d}" for n, d in sorted(r["digest"].items())]})
+                    runs.append({"label": f"cli -c {c} #{rep} hashseed {nrun - 1 if nrun <= 6 else chr(114)}", "digest": [f"{n}:{d}" for n, d in sorted(r["digest"].items())]})
                     if c > 1:
                         ctx.nontrivial((k, mode, "cli", c, rep))
             r = pipecases.run_once(wd, rp, qp, f"seq_{mode}", mode, record=False)
